@@ -4,6 +4,7 @@ import PgModel.Evo
 import PgModel.EvoPerm
 import PgModel.EvoNum
 import PgModel.EvoProp
+import PgModel.EvoSched
 open Pg Pg.C14
 
 def qOfJ : J → Option Q
@@ -86,6 +87,25 @@ def evOfJ (g : GSpec) : J → Option Ev
   | .arr [.str "order", .arr ds] => do pure (.order (← ds.mapM (dnaOfJ g)))
   | _ => none
 
+partial def schedOfJ : J → Option Sched
+  | .arr [.str "c", .int c] => some (.const c)
+  | .arr [.str "step"] => some .step
+  | .arr [.str "add", a, b] => do pure (.add (← schedOfJ a) (← schedOfJ b))
+  | .arr [.str "sub", a, b] => do pure (.sub (← schedOfJ a) (← schedOfJ b))
+  | .arr [.str "mul", a, b] => do pure (.mul (← schedOfJ a) (← schedOfJ b))
+  | .arr [.str "floordiv", a, b] => do pure (.floordiv (← schedOfJ a) (← schedOfJ b))
+  | .arr [.str "mod", a, b] => do pure (.mod (← schedOfJ a) (← schedOfJ b))
+  | _ => none
+
+/-- every `["sched", S]` in a request is replaced by the value of the schedule at the step of the call. -/
+partial def resolveJ (step : Nat) : J → Option J
+  | .arr [.str "sched", sj] => do
+      let sc ← schedOfJ sj
+      let v ← sc.eval step
+      pure (.int v)
+  | .arr xs => do pure (.arr (← xs.mapM (resolveJ step)))
+  | j => some j
+
 def nspecOfJ : J → Option NSpec
   | .null => some .all
   | .int n => some (.count n.toNat)
@@ -103,9 +123,24 @@ def predOfJ : J → Option (Pop → Bool)
   | .arr [.str "never"] => some (fun _ => false)
   | _ => none
 
+/-- `where` filters of the harness family. -/
+partial def whereOfJ : J → Option Where
+  | .arr [.str "any"] => some (fun _ => true)
+  | .arr [.str "kinds", .arr ks] => do
+      let ks ← ks.mapM J.asNat?
+      pure (fun n => ks.contains n.kind)
+  | .arr [.str "valueLt", .int v] => some (fun n => decide (n.value < v.toNat))
+  | .arr [.str "valueEq", .int v] => some (fun n => n.value == v.toNat)
+  | .arr [.str "indexEq", .int v] => some (fun n => n.index == v.toNat)
+  | .arr [.str "not", f] => do let f ← whereOfJ f; pure (fun n => !f n)
+  | .arr [.str "and", f, g] => do let f ← whereOfJ f; let g ← whereOfJ g; pure (fun n => f n && g n)
+  | _ => none
+
 def primOfJ (g : GSpec) (fuel : Nat) : List J → Option Op
   | [.str "mutUniform"] => some (mutUniform fuel g)
   | [.str "mutSwap"] => some (mutSwap g)
+  | [.str "mutUniform", f] => do pure (mutUniformW (← whereOfJ f) fuel g)
+  | [.str "mutSwap", f] => do pure (mutSwapW (← whereOfJ f) g)
   | [.str "selRandom", n, .bool r] => do pure (selRandom (← nspecOfJ n) r)
   | [.str "selSample", n] => do pure (selSample (← nspecOfJ n))
   | [.str "selProportional", n, .arr ws] => do
@@ -118,6 +153,8 @@ def primOfJ (g : GSpec) (fuel : Nat) : List J → Option Op
   | [.str "recSample"] => some (recPointWise true fuel g)
   | [.str "recKPoint", .int k] => some (recKPoint g k.toNat)
   | [.str "recOrder"] => some (recOrder g)
+  | [.str "recPartiallyMapped"] => some (recPMX g)
+  | [.str "recCycle"] => some (recCycle g)
   | [.str "recAverage"] => some (recNumeric none g)
   | [.str "recWeightedAverage"] => some (recNumeric (some harnessWeights) g)
   | [.str "recSegmented", .arr cuts] => do pure (recSegmented g (← cuts.mapM J.asNat?))
@@ -193,7 +230,7 @@ def handle (j : J) : J :=
   | some g =>
     let fuel := depth g + 2
     match (j.getArr? "pop").bind (popOfJ g 0), (j.getArr? "oracle").bind (·.mapM (evOfJ g)),
-          (j.get? "expr").bind (exprOfJ g fuel) with
+          ((j.get? "expr").bind (resolveJ ((j.getNat? "step").getD 0))).bind (exprOfJ g fuel) with
     | some pop, some oracle, some e =>
       match eval e pop { oracle := oracle, nextUid := pop.length } with
       | .error err => .obj [("err", .str (errName err))]
